@@ -43,6 +43,20 @@ VAR_CLS = {'Param': nnx.Param, 'BatchStat': nnx.BatchStat, 'Cache': nnx.Cache,
 ATTR_NAMES = ['a', 'b', 'B', 'a10', 'a2', 'w', 'k']
 
 
+# value hooks are ordinary Variable metadata: module-level functions so that
+# twin graphs carry the very same objects
+def hook_get(var, value):
+  return value + 1.0
+
+
+def hook_set(var, value):
+  return value - 2.0
+
+
+HOOKS = {'get': {'on_get_value': hook_get}, 'set': {'on_set_value': hook_set},
+         'both': {'on_get_value': hook_get, 'on_set_value': hook_set}}
+
+
 def arr(seed, shape):
   return jnp.asarray(np.random.default_rng(seed).integers(
       -50, 50, size=tuple(shape)).astype(np.float32))
@@ -52,7 +66,8 @@ def build(spec):
   """Returns (root, nodes, variables)."""
   nodes = [NODE_CLS[n['cls']]() for n in spec['nodes']]
   variables = [VAR_CLS[v['type']](arr(v['seed'], v['shape']),
-                                  **v.get('meta', {}))
+                                  **v.get('meta', {}),
+                                  **HOOKS.get(v.get('hook'), {}))
                for v in spec['vars']]
 
   def val(v):
@@ -271,7 +286,7 @@ def val_strategy(n_nodes, n_vars, depth=2, arrays=True, statics=True):
 
 
 def graph_strategy(max_nodes=6, max_vars=5, max_attrs=3, arrays=True,
-                   statics=True, var_shapes=([], [2], [2, 3])):
+                   statics=True, var_shapes=([], [2], [2, 3]), hooks=False):
   def make(nn_, nv):
     var = st.fixed_dictionaries({
         'type': st.sampled_from(sorted(VAR_CLS)),
@@ -279,6 +294,8 @@ def graph_strategy(max_nodes=6, max_vars=5, max_attrs=3, arrays=True,
         'shape': st.sampled_from(list(var_shapes)),
         'meta': st.one_of(st.just({}), st.sampled_from(['t1', 't2']).map(
             lambda t: {'tag': t})),
+        'hook': st.sampled_from([None, None, None, 'get', 'set', 'both'])
+        if hooks else st.none(),
     })
     node = st.fixed_dictionaries({
         'cls': st.sampled_from(sorted(NODE_CLS)),
